@@ -29,6 +29,15 @@ def _fake(url, *a, **k):
 
 
 urllib.request.urlopen = _fake
+_default = sys.excepthook
+
+
+def _hook(tp, val, tb):
+    sys.stderr.write("REUSE-VERIF-UNHANDLED-EXCEPTION\n")
+    _default(tp, val, tb)
+
+
+sys.excepthook = _hook
 from reuse.cli.main import main  # noqa: E402
 
 sys.argv = ["reuse", *sys.argv[1:]]
